@@ -48,6 +48,8 @@ M = [
  ("c14-adapter-pool-head-from-header-chain", "C14", "servers/src/common/adapters.rs", "\tfn chain_head(&self) -> Result<BlockHeader, pool::PoolError> {\n\t\tself.chain()\n\t\t\t.head_header()", "\tfn chain_head(&self) -> Result<BlockHeader, pool::PoolError> {\n\t\tself.chain()\n\t\t\t.header_head()\n\t\t\t.and_then(|t| self.chain().get_block_header(&t.last_block_h))", ["C14"]),
  ("c11-api-push-tx-len-unchecked", "C11", "core/src/libtx/secp_ser.rs", "\tif val.len() > MAX_PROOF_SIZE {", "\tif false && val.len() > MAX_PROOF_SIZE {", ["C11"]),
  ("c16-segment-height-guard-removed", "C16", "core/src/core/pmmr/segment.rs", "\t\tif segment_id.height > 63 {", "\t\tif false && segment_id.height > 63 {", ["C16"]),
+ ("c16-archive-roots-not-validated", "C16", "chain/src/txhashset/txhashset.rs", "\t\tself.validate_mmrs()?;\n\t\tself.validate_roots(header)?;\n\t\tself.validate_sizes(header)?;", "\t\tself.validate_mmrs()?;\n\t\tself.validate_sizes(header)?;", ["C16"]),
+ ("c16-archive-mmrs-not-validated", "C16", "chain/src/txhashset/txhashset.rs", "\t\tself.validate_mmrs()?;\n\t\tself.validate_roots(header)?;\n\t\tself.validate_sizes(header)?;", "\t\tself.validate_roots(header)?;\n\t\tself.validate_sizes(header)?;", ["C16"]),
  ("c18-resize-check-skipped-when-busy", "C18", "store/src/lmdb.rs", "\t\t\tif nested_tx {\n\t\t\t\treturn;\n\t\t\t}\n\t\t\tthread::sleep(Duration::from_millis(1));", "\t\t\tlet _ = nested_tx;\n\t\t\treturn;", ["C18"]),
 ]
 
